@@ -929,11 +929,11 @@ func ruleR04i(c *Ctx, r *Report) {
 			continue
 		}
 		fn := c.Prog.FuncValue(f)
-		if fn == nil || len(fn.AnonFuncs) != 1 {
+		if fn == nil || len(closuresOf(fn)) != 1 {
 			continue
 		}
 		key := "option-constructor@" + fnKey(fn)
-		g := fn.AnonFuncs[0]
+		g := closuresOf(fn)[0]
 		var stores []*ssa.Store
 		live := reach(g, nil, nil) // constant conditions (a captured selector flag) decide their branch
 		eachInstr(g, func(in ssa.Instruction) {
